@@ -111,6 +111,16 @@ fn check_template(case: &Value, t: &Template, root: &Path, offset: i64) -> Optio
     }
     let active = other.as_ref().map(|o| o.path().join("active.log")).unwrap_or_else(|| root.join("active.log"));
     for (k, roll) in case["rolls"].as_array().unwrap().iter().enumerate() {
+        if roll["wipe"].as_bool().unwrap_or(false) {
+            // FixedWindow.tla, Wipe: the directory of the archives goes away with everything in it; where the rolled
+            // file lives in it too, that much is put back (empty) for the next file to be written
+            let _ = fs::remove_dir_all(root);
+            bystanders.clear();
+            if other.is_none() {
+                fs::create_dir_all(root).unwrap();
+            }
+            continue;
+        }
         let c = roll["content"].as_i64().unwrap();
         fs::write(&active, content(c)).unwrap();
         match catch(|| roller.roll(&active)) {
